@@ -218,7 +218,7 @@ def gen_packages(run, n):
         tagcase = run.rng.choice(sorted(TAGCASES))
         # member names that collide under case folding: encoding/json drops such fields (not modelled)
         collide = any(keys_collide(pkg, sd, tagcase) for sd in pkg["structs"] if sd["name"] in selected)
-        if collide and "bad" not in classes and run.rng.random() < 0.05:
+        if collide and "bad" not in classes and run.rng.random() < 0.2:     # ~3 of 4 colliding packages are "bad" anyway: ~1 in 20 kept
             classes = ["out" if x == "in" else x for x in classes] + ["collision"]     # K_json_key_collision class
         elif collide:
             classes.append("bad")
@@ -260,9 +260,10 @@ def oracle_for_struct(pkg, sd, inst, key, has_json=True):
     lines.append('\t\tverifKeys(b)')
     lines.append('\t\tw := verifNew(New%s, 50).(*%s)' % (T, T))
     for i, (p, t) in enumerate(lf):
-        if not has_json and t[0] == "map":
+        if not has_json and "map[" in ctorgen.go_type(t):
             # without generated JSON code encoding/json decodes straight into w's field and MERGES into an existing
-            # map (the generated code assigns a freshly decoded one): start from a nil map there
+            # map -- also into the maps still sitting in the backing array of an existing []map (golang/go#21092);
+            # the generated code assigns a freshly decoded value: start from the zero value there
             lines.append('\t\tverifZero(&w.%s)' % ".".join(p))
         else:
             lines.append('\t\tverifFill(&w.%s, %d)' % (".".join(p), 301 + i))
@@ -763,7 +764,7 @@ def main(run):
 
     def bump(k, v=1):
         feat[k] = feat.get(k, 0) + v
-    nstructs = nmarsh = 0
+    nstructs = nmarsh = njson = 0
     for i, pkg in enumerate(pkgs):
         if verdicts.get(i, 0) != 0:
             continue
@@ -776,6 +777,8 @@ def main(run):
             nstructs += 1
             if not o["has_json"]:
                 bump("no_json_code_default_encoding_judged")
+            else:
+                njson += 1
             nmarsh += 1
             bump("keys", len(o["keys"]))
             zs = dict((tuple(p), t) for p, t in o["zeros"])
@@ -834,7 +837,7 @@ def main(run):
         "traces_validated_against_impl": 2 * nmarsh,
         "programs": len(pkgs),
         "structs_observed_in_agreeing_packages": nstructs,
-        "structs_with_json_code": nmarsh,
+        "structs_with_json_code": njson, "structs_marshalled_and_unmarshalled": nmarsh,
         "package_verdicts": {str(k): v for k, v in sorted(vd.items())},
         "verdict_3_reasons": why3,
         "verdict_2_packages_incl_alignment_failures": sum(1 for v in verdicts.values() if v == 2),
